@@ -71,6 +71,8 @@ FAMILIES = {
          'thorough': 4000, 'first': 200000},
         # ... and with the interactions driven through the Rx / ReactiveX front ends
         {'family': 'adapters_cut', 'knobs': {}, 'quick': 250, 'thorough': 4000, 'first': 400000},
+        # close() called from inside on_keepalive_timeout / on_close
+        {'family': 'close_cb', 'knobs': {}, 'quick': 200, 'thorough': 3000, 'first': 700000},
         # explicit close() while a reconnect the application asked for is under way
         {'family': 'reconnect', 'knobs': {'who': 'app', 'p_close_race': 1.0, 'p_stale_fragments': 0.0}, 'quick': 200, 'thorough': 3000, 'first': 600000},
     ],
